@@ -191,7 +191,7 @@ def check(case):
 @st.composite
 def case_st(draw):
     prog = draw(gen.program_st(max_features=2, max_items=3,
-                               outcomes=["pass", "pass", "fail", "raise", "undefined", "pending", "skip"],
+                               outcomes=["pass", "pass", "fail", "raise", "undefined", "pending", "skip", "convert"],
                                cfg=gen.cfg_st(flags=("stop", "dry_run"), p_tags=0.3)))
     hostile = draw(st.integers(0, 3)) != 0
     if hostile:
